@@ -72,7 +72,7 @@ def main():
             "level_claimed": {"category": "model_checking",
                               "text": "Bounded exhaustive exploration on the real code: " + tech + ". Every explored trace of the reference model is replayed on the implementation; the bound completed is reported in the evidence.",
                               "design_ref": "DESIGN.md section " + ref},
-            "level_note": note,
+            "level_note": note + " (plan-level summary; the as-built alphabet, bound and assumptions of the check are its module's RULE / BOUND / ASSUMPTIONS, echoed in every evidence file, and DESIGN.md section 7)",
             "technique": "bounded exhaustive model checking (%s: %s)" % (eng, ENGINES[eng].split(":")[0]),
         })
     man = {
